@@ -35,3 +35,9 @@ claim("C18",
   "Decides key by key, for all 24 documented keys, that the tag exists, is unique and sits on a settable field of the right kind, that nothing rewrites the parsed values, and that each procedure parameter and loop bound in both modes is the unconverted field of its documented key; decides GetMode for every argument-vector length 0..4 and both outcomes of the -t comparison, and that main starts procedures only under mode 1 or 2.",
   "Level 'other'. Trusted: gopkg.in/yaml.v2 scalar decoding. Not decided: README prose; values written by yaml for malformed files.",
   "DESIGN.md §5 C18")
+
+claim("C16",
+  "dependence and argument-role analysis on canonical SSA access paths (SUPI / RAN-UE-NGAP-ID formulas, credential flow), who-may-write scan for identity fields, switch-case control dependence of capability setters, bit-provenance of the setter stores",
+  "Decides for every IMSI/index at once that the SUPI is imsi-<IMSI+index zero-padded to the IMSI's own width> and the RAN-UE-NGAP-ID (f(IMSI)+index) mod M, M >= 10000, with main passing the loop index - the structural reason identities are pairwise distinct and stay in the PLMN; that the context constructor stores its arguments unmodified and nobody else writes them; that K/OPc/OP land in their fields; and that the advertised capability bits are exactly those of the algorithms the context holds.",
+  "Level 'other'. Not decided: MSIN overflow (outside the quantifier), Sprintf/Atoi semantics (trusted).",
+  "DESIGN.md §5 C16")
